@@ -202,12 +202,16 @@ def run_job(job, tier, seed):
         nmax = 4 if tier == 'quick' else 6
         for n in range(0, nmax + 1):
             for p in range(n + 1):
-                check_conformal(res, p, n - p, rng, 6 if n <= 3 else (3 if tier == 'quick' else 6), ob)
-        check_shipped(res, rng, 8 if tier == 'quick' else 30, tier)
+                with common.guard(res, 'check_conformal', dict(p=p, q=n - p)):
+                    check_conformal(res, p, n - p, rng, 6 if n <= 3 else (3 if tier == 'quick' else 6), ob)
+        with common.guard(res, 'check_shipped', dict(module='shipped')):
+            check_shipped(res, rng, 8 if tier == 'quick' else 30, tier)
     elif job == 'conformal_jit':
         for (p, q) in ((2, 0), (1, 1), (3, 0), (0, 2), (2, 1)):
-            check_conformal(res, p, q, rng, 4, ob)
-        check_shipped(res, rng, 3, tier)
+            with common.guard(res, 'check_conformal', dict(p=p, q=q)):
+                check_conformal(res, p, q, rng, 4, ob)
+        with common.guard(res, 'check_shipped', dict(module='shipped')):
+            check_shipped(res, rng, 3, tier)
     else:
         raise ValueError(job)
     ob.run(res, job)
